@@ -88,7 +88,7 @@ static Verdict judge(bool victim_server, bool ecdhe, bool cauth, bool resumed, c
             if (x.epoch_bad) { v.viol_at = (int) i; v.why = "record on the wrong epoch (dropped by a correct receiver, yet part of the sender's transcript)"; v.sig = fmt("completed-with-wrong-epoch-%s", tok_name[x.t]); break; }
             // a ClientHello may legitimately start at message_seq 0 with a cookie it kept (RFC 6347 4.2.1): numbering of the hellos is the stateless server's business
             // (likewise MatrixSSL takes a ServerHello numbered 0 after a HelloVerifyRequest numbered 0, as DTLS 1.0-era servers sent it)
-            if (x.seq_bad && (x.t == T_HVR || x.t == T_HR)) { v.unk_at = (int) i; break; }   // never hashed by either side: ignoring it as a retransmission leaves a consistent handshake
+            if ((x.seq_bad || !x.prot_ok || x.epoch_bad) && (x.t == T_HVR || x.t == T_HR)) { v.unk_at = (int) i; break; }   // (also when its record is damaged and dropped)   // never hashed by either side: ignoring it as a retransmission leaves a consistent handshake
             if (x.seq_bad && x.seq_zero) { v.unk_at = (int) i; break; }   // MatrixSSL exempts message_seq 0 from its retransmission test (parseSSLHandshake: `msn != 0 && lastMsn >= msn`): a message re-numbered 0 is taken
             if (x.seq_bad) { v.viol_at = (int) i; v.why = "handshake message_seq is not the next one"; v.sig = fmt("completed-with-bad-message-seq-%s", tok_name[x.t]); break; }
         }
@@ -280,6 +280,10 @@ static std::string selftest_mode(const Mode &m) {
     Outcome o = run_trace(m, it, (size_t) -1, 7 + m.sv, &vsay);
     std::string d = mode_str(m);
     if (o.open_failed) return d + ": victim session could not be opened";
+    // RFC 5077 3.1 figure 2 (ticket accepted AND renewed: ServerHello+ext, NewSessionTicket, CCS, Finished) towards a client that sent no session id: MatrixSSL only
+    // learns of an acceptance from an echoed id or from a CCS in place of Certificate and answers the NewSessionTicket with unexpected_message.  Legal, refused:
+    // a conformance limit, not a C06 matter - the mode stays in the domain for its deviations (never complete), its legal trace is "receiver may refuse".
+    if (m.tonly == 2 && !o.ever_complete) return "";
     if (!o.ever_complete) return d + fmt(": honest script did not complete (victim rc %d, alert from victim %d, puppet: %s)", o.last_rc, o.alert_from_victim, o.puppet_err.c_str());
     if (!o.puppet_fin_ok || !o.puppet_err.empty()) return d + ": puppet could not verify the victim's flight: " + o.puppet_err;
     if (o.delivered != it.back().st.payload) return d + fmt(": puppet application data not delivered intact (%zu bytes)", o.delivered.size());
@@ -602,6 +606,7 @@ static void prop(Tape &t, Ctx &c) {
     }
     // data right behind the puppet's Finished while the victim's Finished is still outstanding (client in a full handshake, server in an abbreviated one):
     // RFC 5246 7.4.9 says wait, RFC 7918 false start says a client may; the receiver may or may not take it
+    if (m.tonly && mode_nst(m) && lang_resumed) { v.weak = true; c.count("ticket-only-accepted+renewed(may-refuse)"); }
     if (false_start && m.victim_server != lang_resumed) { v.weak = true; c.count("false-start-data"); }
     // A handshake message whose first fragment does not hold the complete 4-byte header is answered with decode_error (legal per RFC 5246 6.2.1, a conformance
     // limit): safety invariants only.  Every other fragmentation - including Finished and CertificateVerify, which need the transcript snapshot taken when the
